@@ -51,7 +51,7 @@ F_ORI  == <<<<111, 114, 105, 103, 105, 110>>, <<>>, <<>>>>               \* orig
 F_LONG == <<<<76, 79, 78, 71, 70, 73, 69, 76, 68, 78, 65, 77>>, <<<<122>>>>, <<>>>>   \* 12-character name
 F_BAD  == <<<<SP>>, <<<<120>>>>, <<>>>>                                   \* blank name: refused
 FieldsQuick    == {F_A, F_b, F_FEAT, F_BAD}
-FieldsThorough == {F_A, F_b, F_A2, F_FEAT, F_ORI, F_LONG, F_BAD}
+FieldsThorough == {F_b, F_A2, F_FEAT, F_ORI, F_LONG, F_BAD}
 NamesQuick     == {<<65>>, <<97>>, <<66>>, S_FEATURES}
 
 ASSUME \A f \in FieldsThorough \ {F_BAD} : Dom_Field(f)
